@@ -95,3 +95,61 @@ Example key_examples :
   /\ key_cmp Ge k1 k1 = true /\ key_cmp Ge (KInt 5) (KInt 5) = true /\ key_cmp Ge (KInt 4) (KInt 5) = false
   /\ map snd (sort_pairs key_lt [(KInt 9, VInt 0); (KInt 2, VInt 1); (KInt 5, VInt 2)]) = [VInt 1; VInt 2; VInt 0].
 Proof. vm_compute. repeat split. Qed.
+
+(* non-vacuity on the SHIPPED Symbol schema: the keyed array `mosaics` of TransferTransactionV1 (sort key mosaic_id), the element codecs
+   of the interpreter at nesting fuel 3, two mosaics with ids 1 < 2.  ALL premises of enc_requires_strict / dec_requires_strict /
+   canonical_encoding (keys_of, shape_ok, a successful write and read), of sort_strict / sort_order_independent (shape_ok, distinct keys),
+   of enc_rejects_equal_keys (two elements with one key) and of keyed_array_roundtrip hold together; the element round-trip premise of
+   keyed_array_roundtrip is discharged, for the admissibility predicate `adm` of C01, by the C01 theorem itself (RT_dec).  The same
+   elements in descending order do not encode. *)
+From Coq Require Import String.
+From Symv Require Import Cats.Layout Cats.StructProofs Cats.StructRoundTrip Cats.StructDecide Gen.SchemaSc.
+Open Scope string_scope.
+Open Scope list_scope.
+
+Definition ex_R : rec_ops :=
+  {| enc_t := enc ops_now sc_schema 3; size_t := size ops_now sc_schema 3; dec_t := dec ops_now sc_schema 3;
+     decf_t := decf ops_now sc_schema 3; key_t := key ops_now sc_schema 3 |}.
+Definition ex_array : array :=
+  match lookup_struct sc_schema "TransferTransactionV1" with
+  | Some s => match find_field (s_fields s) "mosaics" with
+              | Some f => match f_type f with FArray a => a | _ => {| a_elem := ElName ""; a_size := SzFill; a_sort_key := None; a_byte_constrained := false; a_alignment := None; a_last_padded := None |} end
+              | None => {| a_elem := ElName ""; a_size := SzFill; a_sort_key := None; a_byte_constrained := false; a_alignment := None; a_last_padded := None |}
+              end
+  | None => {| a_elem := ElName ""; a_size := SzFill; a_sort_key := None; a_byte_constrained := false; a_alignment := None; a_last_padded := None |}
+  end.
+Definition ex_mosaic (id amount : Z) : value := VStruct "UnresolvedMosaic" [("mosaic_id", VInt id); ("amount", VInt amount)].
+Definition ex_mosaics : list value := [ex_mosaic 1 500; ex_mosaic 2 7].
+
+Example keyed_array_premises_nonvacuous :
+  a_sort_key ex_array = Some "mosaic_id"
+  /\ keys_of sc_schema ex_R ex_array ex_mosaics [KInt 1; KInt 2]
+  /\ shape_ok [KInt 1; KInt 2]
+  /\ distinct_keys (combine [KInt 1; KInt 2] ex_mosaics)
+  /\ match write_array_go ops_now sc_schema ex_R ex_array None ex_mosaics (length ex_mosaics) with
+     | Ok b => read_array_go ops_now sc_schema ex_R ex_array true 2 (StopCount 2) 0 None b = Ok ex_mosaics
+     | _ => False
+     end
+  /\ (forall b, write_array_go ops_now sc_schema ex_R ex_array None (rev ex_mosaics) (length (rev ex_mosaics)) <> Ok b)
+  /\ (forall e be rest, adm sc_schema 1 "UnresolvedMosaic" e -> elem_enc ex_R ex_array e = Ok be ->
+        elem_dec sc_schema ex_R ex_array (be ++ rest) = Ok e /\ elem_size ex_R ex_array e = Ok (Z.of_nat (length be)) /\ (0 < length be)%nat)
+  /\ Forall (adm sc_schema 1 "UnresolvedMosaic") ex_mosaics
+  /\ (elem_key sc_schema ex_R ex_array (ex_mosaic 1 5) = Ok (Some (KInt 1)) /\ elem_key sc_schema ex_R ex_array (ex_mosaic 1 6) = Ok (Some (KInt 1))
+      /\ flat_key (KInt 1) = true /\ same_shape (KInt 1) (KInt 1) = true).
+Proof.
+  split; [vm_compute; reflexivity|].
+  split; [repeat constructor; vm_compute; reflexivity|].
+  split; [intros p q [<-|[<-|[]]] [<-|[<-|[]]]; split; reflexivity|].
+  split; [vm_compute; repeat constructor; cbn [In]; intuition discriminate|].
+  split; [vm_compute; reflexivity|].
+  split; [intro b; vm_compute; discriminate|].
+  split.
+  - intros e be rest Ha He.
+    change (elem_enc ex_R ex_array e) with (enc ops_now sc_schema 3 "UnresolvedMosaic" e) in He.
+    change (elem_dec sc_schema ex_R ex_array (be ++ rest)) with (dec ops_now sc_schema 3 "UnresolvedMosaic" (be ++ rest)).
+    change (elem_size ex_R ex_array e) with (size ops_now sc_schema 3 "UnresolvedMosaic" e).
+    exact (RT_dec sc_schema 1 3 "UnresolvedMosaic" e be rest (le_n 3) Ha He).
+  - split; [|vm_compute; repeat split; reflexivity].
+    apply Forall_cons; [|apply Forall_cons; [|apply Forall_nil]]; apply admb_sound; vm_compute; reflexivity.
+Qed.
+Print Assumptions keyed_array_premises_nonvacuous.
